@@ -59,3 +59,19 @@ let () =
         (b01 g.uaf) (b01 g.bad) (b01 g.src_stop) (b01 g.ab_won) (b01 g.op_won)
         (str_result (Future.expected p))
     | _ -> "ERR args")
+
+(* spawnfault <detached|future> <alloc|nestfut|nestop|connect|none>
+   -> threw/allocs/deallocs/started refs=<n>   (the SpawnFault model's prediction for one run) *)
+let () =
+  Registry.register "spawnfault" (fun args ->
+    match args with
+    | [fn; stage] ->
+      let g = if fn = "future" then SpawnFault.Future else SpawnFault.Detached in
+      let f = match stage with
+        | "alloc" -> Some SpawnFault.SAlloc | "nestfut" -> Some SpawnFault.SNestFut
+        | "nestop" -> Some SpawnFault.SNestOp | "connect" -> Some SpawnFault.SConnect
+        | _ -> None in
+      let s = SpawnFault.run false g f in
+      Printf.sprintf "%s/%d/%d/%d refs=%d" (b01 s.SpawnFault.threw) (int_of_nat s.SpawnFault.allocs)
+        (int_of_nat s.SpawnFault.deallocs) (int_of_nat s.SpawnFault.started) (int_of_nat s.SpawnFault.refs)
+    | _ -> "ERR args")
